@@ -32,6 +32,10 @@ class PathEnd(Stop):
         self.why = why
 
 
+class NoForkAbort(Exception):
+    """raised inside an if-conversion attempt when a genuine fork would be needed"""
+
+
 class Unsupported(Exception):
     """construct outside the subset: the function is not claimed proved (exit 2)"""
 
@@ -89,6 +93,8 @@ class PathRun:
         self.solver.set('timeout', eng.opts.get('feas_timeout_ms', 3000))
         self.feas_checks = 0
         self.boxes = {}
+        self.no_fork = 0
+        self.safe_seen = set()
 
     # ---- symbols ---------------------------------------------------------
     def fresh(self, name, sort=Val):
@@ -126,6 +132,8 @@ class PathRun:
             return True
         if z3.is_false(c):
             return False
+        if self.no_fork:
+            raise NoForkAbort()
         if self.pos < len(self.prefix):
             d = self.prefix[self.pos]
             self.pos += 1
@@ -160,6 +168,8 @@ class PathRun:
         """n-way nondeterministic choice (dispatch, callee outcome, loop body/after); returns index"""
         if n == 1:
             return 0
+        if self.no_fork:
+            raise NoForkAbort()
         if self.pos < len(self.prefix):
             d = self.prefix[self.pos]
             self.pos += 1
